@@ -203,10 +203,28 @@ class Machine(RuleBasedStateMachine):
     @rule(data=st.data(), model=st.sampled_from(['EXDC2', 'SEXS', 'TGOV1', 'IEEEG1']), kind=idx_kinds)
     def add_ctrl(self, data, model, kind):
         syn, dang = self.ref(data, 'SynGen', 'syn')
-        idx = self.do_add(model, self.choose_idx(data, model, kind), dict(syn=syn))
+        params = dict(syn=syn)
+        dang2 = False
+        if model == 'IEEEG1':
+            # the optional second machine of a cross-compound unit: left empty, an existing machine, or a machine that
+            # does not exist (an optional reference that is given must resolve too)
+            k2 = data.draw(st.sampled_from(['none', 'none', 'valid', 'dangling']), label='syn2_kind')
+            if k2 == 'valid':
+                others = [g for g in self.group_idx('SynGen') if g != syn]      # a second machine is another machine
+                if others:
+                    params['syn2'] = data.draw(st.sampled_from(others), label='syn2')
+            elif k2 == 'dangling':
+                self.counter += 1
+                params['syn2'] = 'nowhere%d' % self.counter
+                dang2 = True
+        idx = self.do_add(model, self.choose_idx(data, model, kind), params)
         if dang and idx is not None:
             self.dangling.append((model, 'syn', syn))
             self.features.add('dangling')
+        if dang2 and idx is not None:
+            self.dangling.append((model, 'syn2', params['syn2']))
+            self.features.add('dangling')
+            self.ctx.count('dangling_optional_reference')
 
     @precondition(lambda self: not self.done and len(self.group_idx('Exciter')) > 0)
     @rule(data=st.data(), model=st.sampled_from(['IEEEST', 'ST2CUT']), kind=idx_kinds,
@@ -372,6 +390,9 @@ class Machine(RuleBasedStateMachine):
             for k, hi in enumerate(hidx):
                 pos = holder.idx2uid(hi)
                 want = sorted(repr(r['idx']) for m in refmodels for r in self.rows[m] if r[field] == hi)
+                if field == 'syn':
+                    # the optional second machine of a cross-compound governor points to its machine as well
+                    want = sorted(want + [repr(r['idx']) for m in refmodels for r in self.rows[m] if r.get('syn2') == hi])
                 got = sorted(repr(x) for x in br.v[pos])
                 if want != got:
                     self.fail('backref_wrong', dict(holder=holder.class_name, name=name, device=repr(hi), got=got, expected=want),
